@@ -64,4 +64,14 @@ CHECKS = {
         technique="cache-inspection monitor after every evaluation of the C04 histories: every listed key and every canonical/as-typed spelling evaluated so far is fetched and classified by the reference interpreter (failing / volatile / caching off / non-canonical) and compared with a fresh NoCache evaluation",
         text="Same histories as C04; after each evaluation thousands of keys are inspected per run; served data must be admissible, canonical and equal to a fresh evaluation. Exploration.",
         note="Admissibility classification trusted from the reference interpreter; volatility of link arguments is not propagated (as in the library)."),
+    "C09": dict(
+        category=_EXPL, design_ref="DESIGN.md section 4, C09",
+        technique="call-log monitor: the commands executed by a cold evaluation, an immediate re-evaluation and an evaluation of an extension are compared with a simulation of a caching evaluator over the keys the cache kind admits (admission predicate of conditional caches evaluated on reference-interpreter attributes); contains/get checked after cacheable evaluations",
+        text="17 cache kinds built by their documented constructors x seeded (query, extension) pairs with links, sub-evaluations, namespaces; any command executed more often than the simulation allows is a re-execution. Exploration.",
+        note="Call logs compared as multisets; fewer executions than simulated are counted, not flagged (value correctness is C04)."),
+    "C10": dict(
+        category=_EXPL, design_ref="DESIGN.md section 4, C10",
+        technique="snapshot monitors (configured defaults, every previously returned state, every value the cache serves) re-compared after every step of histories with in-place mutating commands and deliberate caller-side mutation of returned data/metadata, plus self-differential comparison with the NoCache reference from pristine defaults",
+        text="Seeded histories over mutator / state-variable query families with mutable configured defaults under 9 cache kinds + no cache; every evaluation and every served value compared. Exploration.",
+        note="Aliasing is detected through its effect (a later observed change), not by walking object graphs."),
 }
